@@ -182,3 +182,27 @@ package flows
 //@   ensures[mismatch-refused] (exists(k, 0, len(claims), claims[k].GlobalExitRoot != H(claims[k].MainnetExitRoot, claims[k].RollupExitRoot))) ==> result != nil
 //@   loop 0 invariant 0 <= rangeindex + 1 && rangeindex + 1 <= len(claims)
 //@   loop 0 invariant forall(k, 0, rangeindex + 1, claims[k].GlobalExitRoot == H(claims[k].MainnetExitRoot, claims[k].RollupExitRoot))
+
+// ---- signing (C10): the configured signer signs exactly the PP commitment of the certificate that is returned, and
+// nothing the commitment covers is touched afterwards (only the signature is attached). sigOf is the signer as a
+// function of the hash it is given (assumed, A8); signedHash / signCalls observe the calls made.
+//@ spec fn sigOf(h Hash) []byte
+//@ ghost var signedHash Hash
+//@ ghost var signCalls int
+//@ interface github.com/agglayer/go_signer/signer/types.HashSigner.SignHash (self, ctx, hash)
+//@   modifies signedHash, signCalls
+//@   ensures signCalls == old(signCalls) + 1 && signedHash == hash
+//@   ensures result1 == nil ==> seq(result0) == sigOf(hash)
+//@ interface github.com/agglayer/go_signer/signer/types.Signer.PublicAddress (self)
+//@   modifies nothing
+
+//@ func (p *PPFlow) signCertificate
+//@   props C10
+//@   requires p != nil && p.signer != nil && p.log != nil && certificate != nil
+//@   requires forall(k, 0, len(certificate.ImportedBridgeExits), certificate.ImportedBridgeExits[k] != nil && certificate.ImportedBridgeExits[k].GlobalIndex != nil)
+//@   modifies certificate.AggchainData, signedHash, signCalls, ppChunks
+//@   ensures[signed-once] signCalls == old(signCalls) + 1
+//@   ensures[error-means-nothing] result1 != nil ==> result0 == nil && certificate.AggchainData == old(certificate.AggchainData)
+//@   ensures[same-certificate] result1 == nil ==> result0 == certificate
+//@   ensures[signs-the-commitment-of-the-final-content] signedHash == keccak(catB(catB(emptyB(), bytesOf(hb(certificate.NewLocalExitRoot), 32)), bytesOf(hb(keccak(chainH(ppChunks, len(certificate.ImportedBridgeExits)))), 32))) && forall(k, 0, len(certificate.ImportedBridgeExits), ppChunks[k] == keccak(catB(emptyB(), leB(giVal(certificate.ImportedBridgeExits[k].GlobalIndex.MainnetFlag, certificate.ImportedBridgeExits[k].GlobalIndex.RollupIndex, certificate.ImportedBridgeExits[k].GlobalIndex.LeafIndex)))))
+//@   ensures[signature-attached] result1 == nil ==> typeIs(certificate.AggchainData, *agglayertypes.AggchainDataSignature) && seq(cast(certificate.AggchainData, *agglayertypes.AggchainDataSignature).Signature) == sigOf(signedHash)
